@@ -662,6 +662,30 @@ func scenarios(prop string, thorough bool) []job {
 				}
 			}
 		}
+		// cyclic graphs in which one target fails or does not exist: a failure that lands first
+		// must not hide the cycle from the targets that are on it
+		for _, deps := range digraphs(3) {
+			sc0 := mk(deps, nil, nil, 1)
+			if !sc0.cyclic() {
+				continue
+			}
+			for _, kind := range markings(3, 1) {
+				allOK := true
+				for _, k := range kind {
+					allOK = allOK && k == kOK
+				}
+				if allOK {
+					continue
+				}
+				for _, L := range []int{1, 2} {
+					b := 1
+					if thorough {
+						b = 2
+					}
+					add(mk(deps, kind, nil, L), b, true)
+				}
+			}
+		}
 		// wide fans at a small limit: several targets asleep at the gate at once (lost wake-ups
 		// between back-to-back exits need at least two sleepers)
 		for _, w := range []int{4} {
